@@ -386,11 +386,12 @@ class SymNumpy:
     def unique(self, ar, return_index=False, return_inverse=False, return_counts=False, axis=None, **kw):
         if not any_symbolic((ar,), {}):
             return _np.unique(ar, return_index=return_index, return_inverse=return_inverse, return_counts=return_counts, axis=axis, **kw)
-        if return_inverse or return_counts or axis is not None or kw:
-            raise Unsupported("np.unique beyond (values[, first index]) of a 1-D array")
+        if return_inverse or axis is not None or kw:
+            raise Unsupported("np.unique beyond (values[, first index][, counts]) of a 1-D array")
         from .theory import unique_with_index
-        vals, idxs = unique_with_index(to_arr(ar))
-        return (vals, idxs) if return_index else vals
+        vals, idxs, counts = unique_with_index(to_arr(ar))
+        out = (vals,) + ((idxs,) if return_index else ()) + ((counts,) if return_counts else ())
+        return out if len(out) > 1 else vals
 
     def argsort(self, a, axis=-1, kind=None, order=None, stable=None):
         """np.argsort of a 1-D integer array: a permutation perm of [0, n) (ghost inverse inv) with a[perm] non-decreasing
